@@ -406,6 +406,9 @@ func (s *c26State) samplePairs(count int, incl bool) []c26Pair {
 		}
 	}
 	var out []c26Pair
+	if size == 0 {
+		return nil // an empty tree has no (leaf, size) pairs to sample
+	}
 	for i := 0; i < count; i++ {
 		n := pick(size)
 		if n == 0 {
